@@ -51,9 +51,41 @@ type Summary struct {
 	Env     map[ssa.Value]*E
 	Panics  Ref // condition under which an explicit panic is reached
 	Loops   int
-	Mem     map[string]*E   // forwarded memory at the end of the activation (address key -> value)
-	Parent  *Summary        // inlined activations: the calling activation
-	Site    ssa.Instruction // inlined activations: the call instruction in the parent
+	Mem     map[string]*E                   // forwarded memory at the end of the activation (address key -> value)
+	Narrow  map[*ssa.BasicBlock][]narrowing // per block: inlined calls after which RC[b] was narrowed to "the callee returned"
+	Parent  *Summary                        // inlined activations: the calling activation
+	Site    ssa.Instruction                 // inlined activations: the call instruction in the parent
+}
+
+// narrowing records the reach condition in effect before an inlined call of a block.
+type narrowing struct {
+	site   ssa.Instruction
+	before Ref
+}
+
+// RCAt is the reach condition in effect at instruction in: RC of its block, except that
+// instructions placed before an inlined call of the same block are not subject to "the callee
+// returned".
+func (s *Summary) RCAt(in ssa.Instruction) Ref {
+	b := in.Block()
+	ns := s.Narrow[b]
+	if len(ns) == 0 {
+		return s.RC[b]
+	}
+	pos := map[ssa.Instruction]int{}
+	for i, x := range b.Instrs {
+		pos[x] = i
+	}
+	pi, ok := pos[in]
+	if !ok {
+		return s.RC[b]
+	}
+	for _, n := range ns {
+		if pi <= pos[n.site] {
+			return n.before
+		}
+	}
+	return s.RC[b]
 }
 
 // Gate is the evaluator.
@@ -83,6 +115,7 @@ type Gate struct {
 	Search        bool
 	fnByName      map[string]*ssa.Function
 	nextDepthBase int
+	nextCarried   int // number of abstracted (not unrolled) loops around the call being inlined
 	// ConstTables: a package-level variable that is written only by its
 	// initialiser (never assigned, never written through, never handed to code
 	// that could) reads as its initial value.
@@ -138,30 +171,32 @@ func (g *Gate) EvalArgs(fn *ssa.Function, args []*E, bindings []*E) *Summary {
 }
 
 type frame struct {
-	g         *Gate
-	fn        *ssa.Function
-	env       map[ssa.Value]*E
-	rc        map[*ssa.BasicBlock]Ref
-	mem       *mem
-	sum       *Summary
-	base      Ref // reach condition of the call site in the caller
-	back      map[[2]int]bool
-	heads     map[*ssa.BasicBlock]bool
-	tag       string
-	defers    []*ssa.Defer
-	order     []*ssa.BasicBlock
-	relCache  map[*ssa.BasicBlock][]Ref
-	curRC     Ref
-	curBlock  *ssa.BasicBlock
-	loops     []*Loop
-	loopsOK   bool
-	presetPhi map[*ssa.Phi]*E               // unrolling: value of a header φ in the current iteration
-	edgeOv    map[[2]int]Ref                // unrolling: total condition of an edge leaving the unrolled region
-	exitRecs  map[*ssa.BasicBlock][]exitRec // unrolling: per iteration, the edges taken into a merge block
-	unrolled  map[*ssa.BasicBlock]bool      // headers that were unrolled
-	search    map[*Loop]*searchInfo
-	effStart  map[*ssa.BasicBlock]int // loop header -> number of effects when it was entered
-	depthBase int                     // number of search scopes enclosing this activation
+	g           *Gate
+	fn          *ssa.Function
+	env         map[ssa.Value]*E
+	rc          map[*ssa.BasicBlock]Ref
+	mem         *mem
+	sum         *Summary
+	base        Ref // reach condition of the call site in the caller
+	back        map[[2]int]bool
+	heads       map[*ssa.BasicBlock]bool
+	tag         string
+	defers      []*ssa.Defer
+	order       []*ssa.BasicBlock
+	relCache    map[*ssa.BasicBlock][]Ref
+	curRC       Ref
+	curBlock    *ssa.BasicBlock
+	loops       []*Loop
+	loopsOK     bool
+	carriedBase int                           // abstracted loops around this activation's call site
+	unrollNow   map[*ssa.BasicBlock]bool      // headers of loops being (or already) unrolled: their memory is exact
+	presetPhi   map[*ssa.Phi]*E               // unrolling: value of a header φ in the current iteration
+	edgeOv      map[[2]int]Ref                // unrolling: total condition of an edge leaving the unrolled region
+	exitRecs    map[*ssa.BasicBlock][]exitRec // unrolling: per iteration, the edges taken into a merge block
+	unrolled    map[*ssa.BasicBlock]bool      // headers that were unrolled
+	search      map[*Loop]*searchInfo
+	effStart    map[*ssa.BasicBlock]int // loop header -> number of effects when it was entered
+	depthBase   int                     // number of search scopes enclosing this activation
 }
 
 // searchInfo is the canonical form of one pure search loop (nil X: the loop
@@ -188,6 +223,7 @@ func (g *Gate) eval(fn *ssa.Function, args []*E, bindings []*E, m *mem, base Ref
 		g.Top = f.sum
 	}
 	f.depthBase = g.nextDepthBase
+	f.carriedBase = g.nextCarried
 	for i, p := range fn.Params {
 		if i < len(args) && args[i] != nil {
 			f.env[p] = args[i]
@@ -587,11 +623,22 @@ func (f *frame) store(addr, val *E, rc Ref, in ssa.Instruction) {
 	}
 	k := f.memKey(addr)
 	local := strings.HasPrefix(k, "L:")
+	if rc == False {
+		// unreachable in this evaluation: memory is unchanged
+		f.addEffect(Effect{Cond: rc, Kind: "store", Addr: addr, Val: val, Pos: in.Pos(), Ins: in, Local: local})
+		return
+	}
 	old, ok := f.mem.m[k]
 	if !ok {
 		// value before the store, as a load would see it
 		var t types.Type = val.Typ
 		old = f.loadNoMem(addr, t)
+		if !local && in != nil && in.Block() != nil && f.carriedDepth(in.Block()) > 0 {
+			// first store to a heap location inside a loop (possibly of a calling activation): on the
+			// paths that skip this store the location holds what earlier iterations left there, not
+			// the value it had before the loop
+			old = u.mk("loopval", "carried:"+k, t)
+		}
 	}
 	f.mem.m[k] = u.ITE(rc, val, old)
 	f.storeFields(addr, val, rc)
@@ -854,8 +901,11 @@ func (f *frame) call(in ssa.Instruction, c *ssa.CallCommon, rc Ref, typ types.Ty
 	if f.canInline(callee) {
 		saveBase := f.g.nextDepthBase
 		f.g.nextDepthBase = f.depthBase + f.loopDepth(in.Block())
+		saveCarried := f.g.nextCarried
+		f.g.nextCarried = f.carriedDepth(in.Block())
 		sub := f.g.eval(callee, args, bindings, f.mem, rc)
 		f.g.nextDepthBase = saveBase
+		f.g.nextCarried = saveCarried
 		if sub != nil {
 			f.g.Subs = append(f.g.Subs, sub)
 			sub.Parent, sub.Site = f.sum, in
@@ -871,6 +921,10 @@ func (f *frame) call(in ssa.Instruction, c *ssa.CallCommon, rc Ref, typ types.Ty
 					exit = u.bdd.Or(exit, r.Cond)
 				}
 				exit = u.bdd.And(exit, rc)
+				if f.sum.Narrow == nil {
+					f.sum.Narrow = map[*ssa.BasicBlock][]narrowing{}
+				}
+				f.sum.Narrow[f.curBlock] = append(f.sum.Narrow[f.curBlock], narrowing{in, f.curRC})
 				f.curRC = exit
 				f.rc[f.curBlock] = exit
 			}
@@ -1666,6 +1720,19 @@ func (f *frame) loopDepth(b *ssa.BasicBlock) int {
 	return n
 }
 
+// carriedDepth is the number of abstracted loops (of this and of the calling activations) around
+// b: loops whose body is evaluated once for an arbitrary iteration, so that memory written in them
+// is loop-carried.  Unrolled loops are evaluated exactly and do not count.
+func (f *frame) carriedDepth(b *ssa.BasicBlock) int {
+	n := f.carriedBase
+	for _, l := range f.loopList() {
+		if l.Blocks[b] && !f.unrollNow[l.Header] {
+			n++
+		}
+	}
+	return n
+}
+
 // searchExit: is p->b an exit edge of a canonical search loop?  Returns the
 // loop and the condition of taking the edge relative to the loop header
 // (exists(...) for the early exit, its negation for exhaustion).
@@ -2350,6 +2417,7 @@ func (f *frame) tryUnroll(h *ssa.BasicBlock) (map[*ssa.BasicBlock]bool, bool) {
 		f.sum.Rets = f.sum.Rets[:nRet]
 		f.sum.Panics = pan
 		f.presetPhi = nil
+		delete(f.unrollNow, h)
 		for b := range region {
 			delete(f.rc, b)
 		}
@@ -2357,6 +2425,10 @@ func (f *frame) tryUnroll(h *ssa.BasicBlock) (map[*ssa.BasicBlock]bool, bool) {
 	if f.presetPhi == nil {
 		f.presetPhi = map[*ssa.Phi]*E{}
 	}
+	if f.unrollNow == nil {
+		f.unrollNow = map[*ssa.BasicBlock]bool{}
+	}
+	f.unrollNow[h] = true
 	ovSum := map[[2]int]Ref{}
 	recs := map[*ssa.BasicBlock][]exitRec{}
 	type phiAt struct {
